@@ -290,6 +290,29 @@ func consumerKey(group, topic string, partition int32) string {
 	return fmt.Sprintf("%s:%s:%d", group, topic, partition)
 }
 
+// maxTopicNameLength is Kafka's limit for topic names.
+const maxTopicNameLength = 249
+
+// ValidTopicName reports whether name is a legal Kafka topic name: 1..249
+// characters from [a-zA-Z0-9._-], and not "." or "..". Topic names are embedded
+// in S3 object keys, cache keys and etcd keys next to "/" and ":" separators, so
+// any other character would let two topics (or a topic and a partition of
+// another topic) share storage.
+func ValidTopicName(name string) bool {
+	if name == "" || len(name) > maxTopicNameLength || name == "." || name == ".." {
+		return false
+	}
+	for i := 0; i < len(name); i++ {
+		c := name[i]
+		switch {
+		case c >= 'a' && c <= 'z', c >= 'A' && c <= 'Z', c >= '0' && c <= '9', c == '.', c == '_', c == '-':
+		default:
+			return false
+		}
+	}
+	return true
+}
+
 // CreateTopic implements Store.CreateTopic.
 func (s *InMemoryStore) CreateTopic(ctx context.Context, spec TopicSpec) (*protocol.MetadataTopic, error) {
 	select {
@@ -298,6 +321,9 @@ func (s *InMemoryStore) CreateTopic(ctx context.Context, spec TopicSpec) (*proto
 	default:
 	}
 	if spec.Name == "" || spec.NumPartitions <= 0 {
+		return nil, ErrInvalidTopic
+	}
+	if !ValidTopicName(spec.Name) {
 		return nil, ErrInvalidTopic
 	}
 	if spec.ReplicationFactor <= 0 {
